@@ -7,6 +7,7 @@ CONSTANTS
   MaxBlocks = 2
   Variant = "fixed"
   Limits = {1, 2, 100}
+  MaxFail = 1
   Producers = {"v1", "v2"}
 INVARIANTS AcceptTypeOK ChunksExact PrefixExact NeverFails
 PROPERTIES Served
